@@ -410,6 +410,10 @@ def run(repo, rep, tier):
     netcdf_packing(repo, rep)
     chunk_loops(repo, rep)
     stack_guards(repo, rep)
+    rep.rule("R-C11-11", "a per-record buffer that is filled in place and emitted once per iteration is allocated afresh inside the iteration")
+    from .shared import per_iteration_buffers
+    nl, nb = per_iteration_buffers(repo, rep, "R-C11-11", ("wavespectra.core.swan", "wavespectra.input.", "wavespectra.output."))
+    rep.floor("R-C11-11", "per-record buffers examined", nb, 1)
     rep.trust("Python ast; constant propagation of format strings and tables")
     rep.note("not decided: numeric resolution of each format, NaN/zero survival at run time, gzip, off-by-one values inside the chunk loops; "
              "round-trip EQUALITY quantifies over data values and number formatting - only the shared tables / conventions / structure are decided")
